@@ -11,11 +11,10 @@ CHECKS="$*"
 if [ -z "$CHECKS" ]; then CHECKS=$(python3 -c "import json;m=json.load(open('$DIR/meta.json'));print(m.get('checks',m['property']))"); fi
 git -C /repo apply "$DIR/patch.diff" || { echo "patch does not apply"; exit 2; }
 for c in $CHECKS; do
-    out=$(/verif/check "$c" --tier quick 2>&1); code=$?
+    out=$(AQV_EVIDENCE_DIR=/tmp/aqv-evidence-seeded /verif/check "$c" --tier quick 2>&1); code=$?
     sigs=$(echo "$out" | grep -E "^violation:" | sed 's/^violation: \([^ ]*\) ::.*/\1/' | sort -u | tr '\n' ' ')
     echo "seeded=$ID check=$c exit=$code signatures: $sigs"
 done
 git -C /repo checkout -- .
 find /verif/replays -name '*.json' -delete
-# evidence files now describe the mutated tree: regenerate on the clean tree
-for c in $CHECKS; do /verif/check "$c" --tier quick >/dev/null 2>&1; done
+rm -rf /tmp/aqv-evidence-seeded
